@@ -18,12 +18,13 @@ TIE_CHANMAP = TIE_CHANMAP + TIE_LOCKS
 TIE_ACCESS = [(f"TieAccess.{n}", "Relay.Tie.Access") for n in
               ["hasRequiredClaims_tie", "claimsCheck_tie", "claimsCheck_not_jwt", "claimsCheck_wrong_claims", "isRelayAdmin_tie", "hasStatsScope_tie",
                "admin_granted_iff", "stats_granted_iff", "coverage", "isRelayAdmin_err_isNone", "denyHandler_tie", "allowHandler_tie",
-               "listDeniedHandler_tie", "listAllowedHandler_tie", "denyReq_status_as_translated"]]
+               "listDeniedHandler_tie", "listAllowedHandler_tie", "denyReq_status_as_translated",
+               "hasRequiredClaims_exp_nonNil", "mintedToken_as_model", "sessionHandler_refusal", "sessionHandler_grant"]]
 # end to end: property theorems restated over histories of the translated code
 TIE_DENY = TIE_DENY + [(f"TieDenyE2E.{n}", "Relay.Tie.Deny") for n in
                        ["genStep_tie", "genRun_tie", "translated_register_refines_cell", "translated_latest_deny_wins", "translated_lists_disjoint"]]
 TIE_TTLCODE = TIE_TTLCODE + [(f"TieTtlCodeE2E.{n}", "Relay.Tie.TtlCode") for n in
                              ["genStep_tie", "genRun_tie", "translated_code_exchanged_at_most_once", "translated_outputs_are_the_models"]]
-TIE_NOTE = ("TRANSLATOR TIE: internal/deny, internal/ttlcode, internal/chanmap, the scope / required-claims decisions and the four admin handlers of internal/access, and internal/permission are translated to Lean on every run and proved, for all states, arguments and map "
+TIE_NOTE = ("TRANSLATOR TIE: internal/deny, internal/ttlcode, internal/chanmap, the scope / required-claims decisions, the session handler and the four admin handlers of internal/access, and internal/permission are translated to Lean on every run and proved, for all states, arguments and map "
             "iteration orders, to be the store models this property's model builds on (Relay/Tie/*.lean). ")
 TIE_ASSUMPTION = "translator vocabulary (Relay/Base/GoLite.lean): int64 as unbounded Int, pointer receiver as threaded value, mutex calls are not data (lock discipline: C12)"
